@@ -40,6 +40,7 @@ RES_INV = {v: k for k, v in RES.items()}
 # bound the time spent on executions that are already wrong, and must not fire on a loaded machine
 GATE_ARRIVE_TIMEOUT = float(os.environ.get("VERIF_GATE_ARRIVE", "6.0"))
 STALL_TIMEOUT = float(os.environ.get("VERIF_STALL", "12.0"))
+PATIENCE = float(os.environ.get("VERIF_PATIENCE", "0.65"))
 HANG_TIMEOUT = float(os.environ.get("VERIF_HANG", "25.0"))
 MAX_EVENTS = 3000  # per execution; the largest legitimate executions here produce a few hundred
 
@@ -94,8 +95,13 @@ def subsets(items, max_size=None, nonempty=False):
 class Controller:
     """Hook sink + gates + decision procedure for one controlled history (several executions)."""
 
-    def __init__(self, idx_of, script=(), max_subset=None, max_bg=None, bad=(), truthy=None):
+    def __init__(self, idx_of, script=(), max_subset=None, max_bg=None, bad=(), truthy=None, patient=False):
         self.idx_of = idx_of  # node id -> 1-based index
+        # patient: at a blocking wait on thread futures nothing is released for PATIENCE seconds first, so that a wait that
+        # gives up by itself (a timeout in the scheduler) is seen returning with nothing finished
+        self.patient = patient
+        self.thread_tok = None
+        self.gave_up = False
         self.script = list(script)
         self.pos = 0
         self.trail = []
@@ -383,6 +389,12 @@ class Controller:
                 if early:
                     threading.Timer(0.05, lambda: self._release([i for i in early if i in self.gates])).start()
             self.helper = None
+        if kind == "thread" and self.thread_tok is not None:
+            tok, self.thread_tok = self.thread_tok, None
+            with self.cv:
+                if not tok["released"]:
+                    tok["abandoned"] = True        # the wait came back before anything was released: it gave up by itself
+                    self.gave_up = True             # (no patience with the next wait: the run has to go on)
         self.in_wait = None
         self.log("wait_end", k=kind, s=[self.ix(i) for i in done])
 
@@ -418,7 +430,26 @@ class Controller:
             for a in subsets(cand, self.max_subset, nonempty=not done0):
                 for bg in bgs:
                     opts.append((bg, (), a))
+        if self.patient:
+            opts = [o for o in opts if not o[1]] or opts
         bg, first, rest = self.decide("wait-thread", opts)
+        if self.patient and not first and not done0 and not self.gave_up:
+            # let the real wait begin and block; the completions come PATIENCE seconds later from a helper thread
+            tok = {"released": False, "abandoned": False}
+            self.thread_tok = tok
+
+            def later():
+                time.sleep(PATIENCE)
+                with self.cv:
+                    if tok["abandoned"]:
+                        return
+                    tok["released"] = True
+                if bg:
+                    self._release(bg)
+                    self._wait_exit(bg)
+                self._release(rest)
+            threading.Thread(target=later, daemon=True).start()
+            return
         if bg:
             self._release(bg)
             self._wait_exit(bg)
@@ -669,7 +700,7 @@ def run_history(cfg, script=(), max_subset=None, max_bg=None):
                     yaml.safe_dump(conf, f)
             (d.config_from_json if rc["via"] == "json" else d.config_from_yaml)(f.name)
             os.remove(f.name)
-    ctl = Controller(idx_of, script, max_subset, max_bg, bad=cfg.get("bad") or (), truthy=truthy)
+    ctl = Controller(idx_of, script, max_subset, max_bg, bad=cfg.get("bad") or (), truthy=truthy, patient=bool(cfg.get("patient")))
     CURRENT = ctl
     _verif.sink = ctl
     is_async = cfg.get("flavour") == "async"
@@ -697,6 +728,17 @@ def run_history(cfg, script=(), max_subset=None, max_bg=None):
     wd.start()
     tawazi.cfg.RUN_DEBUG_NODES = bool(cfg.get("run_debug", False))
     tawazi.cfg.TAWAZI_PROFILE_ALL_NODES = bool(cfg.get("profile", False))      # profiling must not change what a call does
+    log_sink = None
+    if cfg.get("logging"):
+        # the library's logger switched on (as with TAWAZI_LOGGER_LEVEL=DEBUG), into a sink that drops everything:
+        # every message is formatted - logging must not change what a call does, on the error paths either
+        from loguru import logger as _lg
+        try:
+            _lg.remove()
+        except ValueError:
+            pass
+        log_sink = _lg.add(lambda m: None, level="DEBUG")
+        _lg.enable("tawazi")
     try:
         for op in ops:
             ctl.reset_exec()
@@ -744,6 +786,13 @@ def run_history(cfg, script=(), max_subset=None, max_bg=None):
         _verif.sink = None
         tawazi.cfg.RUN_DEBUG_NODES = False
         tawazi.cfg.TAWAZI_PROFILE_ALL_NODES = False
+        if log_sink is not None:
+            from loguru import logger as _lg
+            _lg.disable("tawazi")
+            try:
+                _lg.remove(log_sink)
+            except ValueError:
+                pass
         ctl.release_everything()
         signal.signal(signal.SIGUSR1, old)
     return {
